@@ -83,7 +83,7 @@ def assemble (t : Tables) (rom : RomType) (fs : FS) (mainName : String) (defines
         | .ok st => .ok st.writes st.r.allLabels st.trace st.r
     | .error e => .raised e
     | .ok (asts, _) =>
-      match (genList t.env (t.recursionLimit) asts).run { r := r0, macros := [], fs := fs } with
+      match (genList t.env t.recursionLimit asts).run { r := r0, macros := [], fs := fs } with
       | .error e => .raised e
       | .ok (nodes, gs) =>
         match resolveLabels t.env nodes gs.r with
